@@ -572,7 +572,7 @@ func c10Doc(t *sx, depth int) *dnode {
 				continue // member absent
 			}
 			if rndn(6) == 0 {
-				d.ents = append(d.ents, dent{kk: "u", key: []byte(pick([]string{`"unknown"`, `"zzA"`, `"UNKNOWN_LONG_MEMBER_NAME_THAT_EXCEEDS_SIXTY_FOUR_BYTES_0123456789_0123456789"`})) , gv: c10G(2)})
+				d.ents = append(d.ents, dent{kk: "u", key: []byte(pick([]string{`"unknown"`, `"zzA"`, `"UNKNOWN_LONG_MEMBER_NAME_THAT_EXCEEDS_SIXTY_FOUR_BYTES_0123456789_0123456789"`})), gv: c10G(2)})
 				if len(d.ents) > 0 && rndn(2) == 0 {
 					continue
 				}
@@ -603,7 +603,9 @@ func c10Doc(t *sx, depth int) *dnode {
 					}
 					e.val = &dnode{k: "qnum", raw: out, inner: in}
 				case "int":
-					e.val = &dnode{k: "sc", raw: []byte(`"` + pick(c10IntToks) + `"`)}
+					// quoted integers as strconv reads them: sign and leading zeroes included (the decoder must not
+					// normalise them in place: the input is lent, not given)
+					e.val = &dnode{k: "sc", raw: []byte(`"` + pick(append([]string{"-007", "-0042", "-00", "007", "-000123456789", "00"}, c10IntToks...)) + `"`)}
 				case "bool":
 					e.val = &dnode{k: "sc", raw: []byte(pick([]string{`"true"`, `"false"`}))}
 				case "f64":
